@@ -541,3 +541,29 @@ def byteswap_spec(C, self, fmt=None, start=None, end=None, repeat=True):
         reps += 1
     _set_bits(C, self, BA.concrete(D))
     return reps
+
+
+# byteswap with a *one-shot* iterable as the format ("an iterable of integers" is the documented type: an iterator, a generator).
+# The same specification; only the real argument differs (the model keeps the list of the values the iterator yields).  Added after a
+# round-7 sub-agent's remark: the validation loop consumed the iterator, so byteswap(iter([2])) swapped nothing and returned 0.
+def _byteswap_oneshot_shapes():
+    from pyvc.replay import OneShot
+    out = []
+    for sh in _byteswap_shapes():
+        def real(vals, r=sh.real):
+            a, k = r(vals)
+            lst = list(a[1])
+            a[1] = OneShot(lst)
+            return a, k
+
+        def gen(rng, g=sh.gen):
+            v = g(rng)
+            v['fmt'] = rng.choice([[1], [2], [2], [4], [1, 2], [2, 1], [3, 1], [1, 1, 2], [0], [], [1, -1], [8]])
+            return v
+        out.append(Shape(sh.name, sh.build, real, gen=gen, stable=False, bounded_only=True))
+    return out
+
+
+contract('bitarray_.BitArray.byteswap@one-shot-iterator', target='bitarray_.BitArray.byteswap', shapes=_byteswap_oneshot_shapes(), props={'C03'},
+         kind='public', note="byteswap(fmt) where fmt is an iterator / generator of byte sizes: as for the list of the values it yields  "
+                             "(BOUNDED: nested loops)")(byteswap_spec)
